@@ -123,8 +123,16 @@ def _getbins_facts(S0, right, vector, lo=0, hi=10, b0=None, bn=None, check=True,
 def _bound(ctx, S, what, node):
     """every name read on the evaluated paths is bound (a deleted or mistyped definition is a NameError, whatever else holds)"""
     names = sorted({u[0] for u in S.tr.unbound})
-    ctx.check(not names, f"{what}: every name the evaluated code reads is bound before it is read", S.tr.unbound[0][1] if names else node,
-              None if not names else {"unbound": names}, nontrivial=False)
+    # a read of a name nothing binds is a definite NameError whatever else was left undetermined (it is usually *why* an output is undetermined)
+    saved = ctx.__dict__.get("unread") if hasattr(ctx, "__dict__") else None
+    if saved is not None:
+        ctx.unread = []
+    try:
+        ctx.check(not names, f"{what}: every name the evaluated code reads is bound before it is read", S.tr.unbound[0][1] if names else node,
+                  None if not names else {"unbound": names}, nontrivial=False)
+    finally:
+        if saved is not None:
+            ctx.unread = saved
 
 
 def _is_full(x):
@@ -972,7 +980,7 @@ def _retained_mask(S, allu, U, strict=True):
     last = [c for c in cells if const_of(c[1]) == -1]
     ini_t = truth(ini, None) if ini is not None else None
     text = f"mask stores {[(short(c[1], 60), short(c[2], 160)) for c in cells]} init {short(ini)}"
-    if not (ini_t is not None and len(cells) == len(inner) + len(last) and len(inner) == 1 and len(last) == 1 and not inner[0][4]["guard"]):
+    if not (ini_t is not None and len(cells) == len(inner) + len(last) and len(inner) == 1 and len(last) == 1):
         return text
     YU = ends = None
     # the end-point test compares the last two entries of some array: that array is the sequence of retained samples the mask belongs to
@@ -986,6 +994,20 @@ def _retained_mask(S, allu, U, strict=True):
             YU, ends = x1[1][0], (a_[0], a_[1])
     if YU is None:
         return text
+    if inner[0][4]["guard"]:
+        # (pass 5) the interior store under a test: immaterial exactly when the test holds whenever there is an interior (three or more retained
+        # samples; with fewer the slice [1:-1] is empty).  Decided on the sizes 3, 4, 7; a test that is not a size test is not read
+        for nn in (3, 4, 7):
+            f = Facts()
+            for v in (S.E("V.size", V=YU), S.E("len(V)", V=YU), S.E("V.shape[0]", V=YU)):
+                f.num_set(v, nn)
+            tg_ = truth(conj(list(inner[0][4]["guard"])), f)
+            if tg_ is False:
+                # with nn retained samples the interior entries are never tested: they keep the value the mask was created with (all marked, or all
+                # dropped - wrong for the monotone resp. the zig-zag signal of that length)
+                return f"interior: with {nn} retained samples the interior store is skipped (guard {short(conj(list(inner[0][4]['guard'])), 100)}), its entries keep the initial value"
+            if tg_ is not True:
+                return text + f" [interior store under {short(conj(list(inner[0][4]['guard'])), 100)}]"
     return dict(ends=ends, mask=mask, cells=cells, ini=ini, ini_t=ini_t, inner=inner[0], last=last[0], YU=YU, YUr=_masks(S, YU), text=text)
 
 
@@ -1060,6 +1082,10 @@ def _findap_numpy(ctx, variant, fu, pl, consts, table, lf):
         if isinstance(m, str) and m.startswith("scatter: "):
             scatter_ok = False
             probs.append(m[9:])
+            continue
+        if isinstance(m, str) and m.startswith("interior: "):
+            ret_ok = False
+            probs.append(f"all-unique={allu}: " + m[10:])
             continue
         if isinstance(m, str) and m.startswith("scatter? "):
             shape_ok = False
@@ -1881,7 +1907,21 @@ def r3_telescoping(ctx):
                 # shape cannot give silently wrong outputs - the shape is demanded only where the allocation shows it
                 ctx.note("fdepsd: the shape of the level array is not visible in an allocation; not demanded")
             ok = ok and shp is not False
-            dom_ok = any(same(inf["dom"], w) for w in (S_.E("nbins"), S_.E("len(L)", L=S_.ev.mk_idx(F.sym(LV), inf["J"])), S_.E("L.shape[1]", L=F.sym(LV))))
+            row_ = S_.ev.mk_idx(F.sym(LV), inf["J"])
+            doms = (S_.E("nbins"), S_.E("len(L)", L=row_), S_.E("L.shape[1]", L=F.sym(LV)), S_.E("L.size", L=row_), S_.E("L.shape[0]", L=row_), S_.E("L.shape[-1]", L=F.sym(LV)))
+            dom_ok = any(same(inf["dom"], w) for w in doms)
+            if not dom_ok and unread is None:
+                # (pass 5) a count of levels that is none of the spellings of "all of the row": wrong only when it differs from one of them by a constant
+                # (range(nbins - 1) drops a level); anything else is not read
+                off = []
+                for w in doms:
+                    try:
+                        off.append(const_of(need(inf["dom"]) - need(w)))
+                    except Unsupported:
+                        off.append(None)
+                if not any(o is not None and o != 0 for o in off):
+                    unread = f"the number of levels counted is not read: {short(inf['dom'], 120)}"
+                    dom_ok = True
             if unread is not None and dom_ok:
                 ctx.error("fdepsd: amplitude levels are k/nbins of the largest cycle amplitude, k = 0..nbins-1 (first level 0)", f_, unread)
             else:
